@@ -18,6 +18,9 @@
 //	(conc <inproc|http> (client <name> <tree> (<op>...))...)
 //	(cobs <stray 0|1> <hang 0|1> (cl (<answer>...) <tree> (<answer>...) <tree>)...)
 //
+// Part "gate" (gate.go): independence of progress — requests held in the middle by the
+// harness must not keep requests on disjoint collections from completing as alone.
+//
 // Part "cdav" (cdav.go): the same differential for caldav/carddav handlers, no model.
 //
 // In the thorough tier the conc and cdav workloads are additionally run in a child process
@@ -1128,6 +1131,8 @@ func main() {
 				raceSoak(sink)
 			case x.Head() == "conc":
 				sink.Put(runConc(parseWorkload(x), concWatchdog))
+			case x.Head() == "gate":
+				sink.Put(runGate(parseGWorkload(x), concWatchdog))
 			case x.Head() == "cdav":
 				sink.Put(runDav(parseDWorkload(x), concWatchdog))
 			}
@@ -1175,6 +1180,18 @@ func main() {
 		ws := concWorkloads(rng.Fork(2), thorough, 1)
 		runConcAll(ws, sink, concWatchdog)
 		fmt.Fprintf(os.Stderr, "c18: %d concurrent workloads\n", len(ws))
+		nGin, nGhttp := 220, 60
+		if thorough {
+			nGin, nGhttp = 2500, 500
+		}
+		gws := gateWorkloads(rng.Fork(4), nGin, nGhttp)
+		for _, g := range gws {
+			if tooBroken() {
+				break
+			}
+			sink.Put(runGate(g, concWatchdog))
+		}
+		fmt.Fprintf(os.Stderr, "c18: %d gated workloads\n", len(gws))
 		ndav := 400
 		if thorough {
 			ndav = 4000
